@@ -378,6 +378,14 @@ impl Archive {
         file.read_exact(&mut footer_size_bytes)?;
         let footer_size = u64::from_le_bytes(footer_size_bytes);
 
+        // The footer must lie inside the file (a truncated or foreign file has an arbitrary
+        // value here; file_size >= 8 is guaranteed by the successful seek above)
+        if footer_size > file_size - 8 {
+            anyhow::bail!(
+                "Invalid archive: footer size {footer_size} exceeds file size {file_size} (truncated or not an AGC file)"
+            );
+        }
+
         // Seek to start of footer
         file.seek(SeekFrom::Start(file_size - 8 - footer_size))?;
 
@@ -420,6 +428,13 @@ impl Archive {
             for _ in 0..num_parts {
                 let (offset, _) = read_varint(&mut cursor)?;
                 let (size, _) = read_varint(&mut cursor)?;
+                // A part must lie inside the file, otherwise reading it would allocate a
+                // buffer of arbitrary size
+                if offset.checked_add(size).map_or(true, |end| end > file_size) {
+                    anyhow::bail!(
+                        "Invalid archive: part at offset {offset} with size {size} exceeds file size {file_size}"
+                    );
+                }
                 stream.parts.push(Part::new(offset, size));
             }
 
